@@ -1,7 +1,8 @@
 (** C22 — every block's dependency graph is a well-formed DAG.
     Pinned statements only; proofs live in Proofs/GraphProofs.v (model: Model/Graph.v). *)
-From Coq Require Import List NArith Bool Relations.
-From QV Require Import Model.DepQueue Model.Graph Proofs.GraphProofs Proofs.GraphReachProofs.
+From Coq Require Import List NArith Bool Relations Permutation.
+From QV Require Import Model.DepQueue Model.Graph Proofs.GraphProofs Proofs.GraphReachProofs
+  Proofs.GraphPermProofs.
 Import ListNotations.
 Local Open Scope N_scope.
 
@@ -54,3 +55,52 @@ Example C22_nonvacuous :
   wf_block is term = true /\ forallb has_frames is = true /\
   exists E, build is term = inr E /\ chk_dag 4 E = true /\ chk_reach 4 E = true /\ length E = 18%nat.
 Proof. vm_compute. repeat split. eexists. repeat split. Qed.
+
+(** Independence of the HashSet iteration orders.  The implementation visits the regions an
+    instruction reads / writes / captures and the frames it uses / blocks in the arbitrary order
+    of a [HashSet]; the model takes lists.  [info_perm i i'] (Proofs/GraphPermProofs.v): same
+    role, same memory-access error flag, same is_scheduled, and each of the five lists of [i'] is
+    a [Permutation] of the corresponding list of [i] (no duplicate-freeness needed);
+    [term_perm]: both terminators absent, or both present and related by [info_perm].
+    For every two blocks related pointwise: [build] fails on one iff it fails on the other, with
+    the same error at the same node; otherwise the two graphs have the same (source, target,
+    kind) edges.  (The same holds with the ghost labels kept: [build_l_perm].) *)
+Theorem C22_build_order_independent :
+  forall (is is' : list info) (term term' : option info),
+    Forall2 info_perm is is' -> term_perm term term' ->
+    match build is term, build is' term' with
+    | inl e, inl e' => e = e'
+    | inr E, inr E' => forall x : gedge, In x E <-> In x E'
+    | _, _ => False
+    end.
+Proof. exact build_perm. Qed.
+
+(** The well-formedness premise of the other C22 / C24 theorems does not depend on the orders. *)
+Theorem C22_wf_order_independent :
+  forall (is is' : list info) (term term' : option info),
+    Forall2 info_perm is is' -> term_perm term term' ->
+    wf_block is term = true -> wf_block is' term' = true.
+Proof. exact wf_block_perm. Qed.
+
+(** Non-vacuity: two classical writers of regions 0 and 1, then an RF instruction reading both
+    regions, using frames 0, 1 and blocking frames 2, 3, and a terminator reading both regions -
+    once visited in the orders 0,1 / 0,1 / 2,3 and once in the orders 1,0 / 1,0 / 3,2.  The blocks
+    are related, both build, the edge LISTS differ, the edge SETS are equal. *)
+Example C22_order_nonvacuous :
+  let is := [MkInfo RClassical false [] [0] [] [] [] false;
+             MkInfo RClassical false [] [1] [] [] [] false;
+             MkInfo RRF false [0; 1] [] [] [0; 1] [2; 3] true] in
+  let is' := [MkInfo RClassical false [] [0] [] [] [] false;
+              MkInfo RClassical false [] [1] [] [] [] false;
+              MkInfo RRF false [1; 0] [] [] [1; 0] [3; 2] true] in
+  let term := Some (MkInfo RControl false [0; 1] [] [] [] [] false) in
+  let term' := Some (MkInfo RControl false [1; 0] [] [] [] [] false) in
+  Forall2 info_perm is is' /\ term_perm term term' /\ wf_block is term = true /\
+  exists E E', build is term = inr E /\ build is' term' = inr E' /\ E <> E' /\
+               length E = 26%nat /\ forall x, In x E <-> In x E'.
+Proof.
+  cbv zeta. split; [repeat constructor|]. split; [repeat constructor|]. split; [reflexivity|].
+  eexists. eexists. split; [vm_compute; reflexivity|]. split; [vm_compute; reflexivity|].
+  split; [vm_compute; discriminate|]. split; [reflexivity|].
+  intros x. cbn [In]. tauto.
+Qed.
